@@ -177,6 +177,22 @@ func init() {
 	})
 	register("tiles", func(n int) {
 		for i := 0; i < n; i++ {
+			if rng.Intn(20) == 0 {
+				// every tile at horizontal zoom 0 (or every tile at the same zoom), with a requested vertical zoom outside 0..35: an
+				// error for the whole call whatever the tiles are
+				h := int64(0)
+				if rng.Intn(3) == 0 {
+					h = int64(rng.Intn(3))
+				}
+				zk := int64(20 + rng.Intn(6))
+				var ts []string
+				for j := 1 + rng.Intn(3); j > 0; j-- {
+					ts = append(ts, fmt.Sprintf("%d/%d/%d/%d/%d", h, randIdx(h), randIdx(h), zk, randIdx(zk)))
+				}
+				outV := []int64{36, 36, 37, 40, -1, -2, 35, 0}[rng.Intn(8)]
+				do("tile2ext", join(ts), "25", "0", s(outV))
+				continue
+			}
 			if rng.Intn(10) == 0 {
 				// the plain altitude scale (base exponent 25, offset 0) with the tiles already at the output zoom: the conversion is
 				// the identity on VALID keys — and still an error, for the whole call, on a key outside 0 .. 2^zoom-1
